@@ -134,6 +134,8 @@ class RMol:
         self.max_depth = 0     # deepest nesting of applied branch symbols
         self.ring_queue = []   # (l, r, order, (lmark, rmark)) as queued
         self.ring_events = []  # per queued ring: 'self'|'refused'|'merged'|'made'
+        self.index_pos = set() # global positions of symbols consumed as index digits
+        self.live_branch_pos = set()  # global positions of atoms derived inside a branch
 
     # views used by the comparisons -------------------------------------------------------
     def atom_keys(self):
@@ -310,6 +312,7 @@ def _derive_fragment(toks, offset, mol, table, cache):
             for _ in range(L):
                 if pos < n:
                     q = q * 16 + IDX.get(toks[pos], 0)
+                    mol.index_pos.add(offset + pos)
                     pos += 1
                 else:
                     q = q * 16
@@ -345,6 +348,7 @@ def _derive_fragment(toks, offset, mol, table, cache):
             for _ in range(L):
                 if pos < n:
                     q = q * 16 + IDX.get(toks[pos], 0)
+                    mol.index_pos.add(offset + pos)
                     pos += 1
                 else:
                     q = q * 16
